@@ -527,6 +527,30 @@ func closeSites(c *Ctx, fns []*ssa.Function) []closeSite {
 					cs.guarded = "every caller is once-guarded (sync.Once / CompareAndSwap)"
 				}
 			}
+			// closed by the one goroutine / call that is started together with the freshly created object holding the
+			// channel: the object is allocated in the (single) caller, handed over once, outside any loop
+			if cs.guarded == "" {
+				if _, base, ok := ir.LoadedField(ch); ok {
+					if p, isParam := base.(*ssa.Parameter); isParam {
+						idx := -1
+						for i, q := range fn.Params {
+							if q == p {
+								idx = i
+							}
+						}
+						callers := ir.Callers(c.G, fn)
+						okAll := len(callers) == 1 && idx >= 0
+						for _, e := range callers {
+							if e.Site == nil || idx >= len(e.Site.Common().Args) || !ir.BaseAlloc(e.Site.Common().Args[idx]) || flow.InCycle(e.Site.Block()) {
+								okAll = false
+							}
+						}
+						if okAll {
+							cs.guarded = "closed by the single goroutine started with the freshly created object"
+						}
+					}
+				}
+			}
 			out = append(out, cs)
 		})
 	}
